@@ -1,0 +1,27 @@
+//go:build verif
+
+package meta
+
+import (
+	"github.com/openGemini/openGemini/lib/util/lifted/influx/influxql"
+)
+
+// VerifC11ConditionTags exposes getConditionTags to the C11 verification harness (thin wrapper, no behaviour).
+// The result is nil when getConditionTags returns nil ("no shard-key constraint").
+func VerifC11ConditionTags(condition influxql.Expr, schema *CleanSchema) [][][2]string {
+	groups := getConditionTags(condition, schema)
+	if groups == nil {
+		return nil
+	}
+	res := make([][][2]string, 0, len(groups))
+	for _, g := range groups {
+		set := make([][2]string, 0)
+		if g != nil {
+			for _, t := range *g {
+				set = append(set, [2]string{t.Key, t.Value})
+			}
+		}
+		res = append(res, set)
+	}
+	return res
+}
